@@ -423,6 +423,7 @@ Proof.
     unfold tr_ok, m_resp_repr. simpl. rewrite !pub_app, Hw, H, H0. reflexivity.
   - inv E. split; auto.
   - unfold m_resp_raise in E. destruct (r_failed r); inv E; split; auto.
+  - inv E. split; auto. unfold tr_ok, m_assign. destruct cred; simpl in *; [reflexivity | rewrite Hw; reflexivity].
 Qed.
 
 Lemma run_op_wok_any : forall o h t s h',
@@ -451,6 +452,7 @@ Proof.
   - inv E. reflexivity.
   - inv E. reflexivity.
   - unfold m_resp_raise in E. destruct (r_failed r); inv E; reflexivity.
+  - inv E. unfold m_assign. destruct cred; reflexivity.
 Qed.
 
 (* T1 *)
@@ -653,3 +655,22 @@ Example resp_premises_satisfiable :
               OpRespRaise (mkResp [Pub 0] [Pub 1; Sec 0] [Pub 2] true)] in
   forallb op_wf ops = true /\ run_ops true ops [] = ([ORepr []; ORepr [Pub 0; Pub 3; Pub 2]; OExc E_CMDFAIL []], SRaised).
 Proof. vm_compute. split; reflexivity. Qed.
+
+(* non-trivial instance with credential rotation on an existing driver: a refused telnet login with the old password
+   (the device asks three times), the password and the enable secret are reassigned ([OpAssign true]: nothing observable),
+   a prompt pattern is reassigned ([OpAssign false]: its setter logs the public value), the login with the new password
+   succeeds: T1's premises hold, both passwords are typed (only when asked for), nothing secret shows *)
+Example assign_premises_satisfiable :
+  let fp := mkF false false true false false false false false false in
+  let fq := mkF false false false false true false false false false in
+  let ops1 := [OpLoginTelnet [Pub 10] [Sec 1]] in
+  let ops2 := [OpAssign true [Sec 4]; OpAssign true [Sec 5]; OpAssign false [Pub 7]; OpLoginTelnet [Pub 10] [Sec 4]] in
+  let h1 := [RData [Pub 1] fp; RData [Pub 1] fp; RData [Pub 1] fp] in
+  let h2 := [RData [Pub 1] fp; RData [Pub 2] fq] in
+  forallb op_wf (ops1 ++ ops2) = true /\ forallb op_wf_first (ops1 ++ ops2) = true /\
+  hist_pub (h1 ++ h2) = true /\
+  snd (run_ops true ops1 h1) = SRaised /\ snd (run_ops true ops2 h2) = SOk /\
+  In (OWrite [Sec 1] true) (fst (run_ops true ops1 h1)) /\ In (OWrite [Sec 4] true) (fst (run_ops true ops2 h2)) /\
+  In (OInfo [Pub 7]) (fst (run_ops true ops2 h2)) /\
+  forallb obs_ok (fst (run_ops true ops1 h1) ++ fst (run_ops true ops2 h2)) = true.
+Proof. vm_compute. repeat split; tauto. Qed.
